@@ -22,7 +22,48 @@ from .net import NetLoop
 from . import ctlworkers
 from .poolsim import silence_library_logging
 
+class LoopStalled(BaseException):
+    """Raised by the watchdog inside code that keeps the loop busy within ONE handle for seconds of wall time."""
+
+
+class _Watchdog:
+    """A single loop handle never legitimately takes seconds.  If the handle counter does not move between two ticks
+    of a wall-clock interval timer, the code running inside that handle is spinning: it is interrupted (so that the run
+    can end) and the run is marked as stalled - a violation, not a harness error."""
+    PERIOD = 8.0
+
+    def __init__(self, sim):
+        self.sim = sim
+        self.last = None
+        self.old = None
+
+    def start(self):
+        import signal
+        import threading
+        if threading.current_thread() is not threading.main_thread():
+            return
+        self.old = signal.signal(signal.SIGALRM, self._tick)
+        signal.setitimer(signal.ITIMER_REAL, self.PERIOD, self.PERIOD)
+
+    def stop(self):
+        import signal
+        if self.old is not None:
+            signal.setitimer(signal.ITIMER_REAL, 0)
+            signal.signal(signal.SIGALRM, self.old)
+            self.old = None
+
+    def _tick(self, signum, frame):
+        sim = self.sim
+        now = (sim.loop.handles_run, len(sim.events))
+        if now == self.last and getattr(sim.loop, "in_handle", False):
+            sim.stalled = True
+            self.last = None
+            raise LoopStalled("no progress within one loop handle for %.0f s" % self.PERIOD)
+        self.last = now
+
+
 _POOL_TASK_RE = re.compile(r"_Task-\d+$")
+STREAM_LIMIT = 2 ** 16          # asyncio.StreamReader's default limit, which the server's streams use
 BLOCKING = ("until-closed", "gather-and-close", "flush")
 
 
@@ -117,6 +158,10 @@ class CtlSim:
 
     def _on_task_created(self, task, coro, creator):
         self.pool_tasks.append(task)      # (asyncio.create_task applies the name later: filtered by name when asked)
+
+    def overlong_lines(self):
+        return [c.label for c in self.clients.values() if c.kind == "raw"
+                and any(len(ln.encode()) + 1 > STREAM_LIMIT for ln in bytes(c.sent).decode("utf-8", "replace").split("\n"))]
 
     def early_dead_tasks(self):
         """Trigger of the recorded finding F-EARLY, seen from outside: a pool task that ended cancelled although its
@@ -406,7 +451,8 @@ class CtlSim:
         c = self.clients.get(st["c"])
         if c is None or c.gone:
             return
-        self._send(c, st["text"].encode("utf-8") + b"\n")
+        # the line terminator is the client's business: LF, CR LF (telnet, nc -C, Windows tooling), blanks or a tab before it
+        self._send(c, st["text"].encode("utf-8") + st.get("eol", "\n").encode())
 
     def _op_raw(self, st):
         c = self.clients.get(st["c"])
@@ -574,7 +620,9 @@ class CtlSim:
         saved = (cmod.__dict__.get("input"), cmod.__dict__.get("print"))
         old_sim = ctlworkers.SIM
         old_argv = sys.argv
+        wd = _Watchdog(self)
         try:
+            wd.start()
             ctlworkers.SIM = self
             ctlworkers.alias = ctlworkers.work
             addr = self.address()
@@ -604,6 +652,7 @@ class CtlSim:
                 self.end_of_steps()
                 self._teardown()
         finally:
+            wd.stop()
             sys.stdout, sys.stderr = old_out, old_err
             sys.argv = old_argv
             ctlworkers.alias = ctlworkers.work
@@ -623,6 +672,11 @@ class CtlSim:
 
     def end_of_steps(self):
         """Hook: property-specific final checks are added by the engine through run['final']."""
+        if getattr(self, "stalled", False):
+            msg = "the event loop was kept busy inside ONE handle for seconds of wall time (interrupted by the watchdog): " \
+                  "every session, the pool's tasks and the ability to stop the server were frozen meanwhile"
+            self.violate("C19", "loop_stalled", msg)
+            self.violate("C18", "loop_stalled", msg)
         for name in self.run.get("final", ()):
             getattr(self, "_final_" + name)()
 
@@ -670,6 +724,9 @@ class CtlSim:
             if exc is None:
                 continue
             sig = None
+            if isinstance(exc, ValueError) and "chunk" in str(exc) and self.overlong_lines():
+                # recorded finding F-LONGLINE: a line longer than the stream reader's limit (64 KiB) ends the session
+                sig = "F-LONGLINE"
             if isinstance(exc, asyncio.CancelledError) and self.early_dead_tasks():
                 # recorded finding F-EARLY reached through a session: gather-and-close / flush raise the CancelledError of
                 # a task that was cancelled before its first step, and that BaseException ends the session
@@ -709,8 +766,11 @@ class CtlSim:
                     self.stats["probe:blocking_command_pending"] += 1
                 else:
                     killed = self.early_dead_tasks() and any(isinstance(e, asyncio.CancelledError) for _, e, _ in self.session_exceptions())
-                    self.violate("C18", "missing_reply", f"client {c.label}: {len(replies)} replies for {n_lines} lines; unanswered: {lines[len(replies)]!r}",
-                                 signature="F-EARLY" if killed else None)
+                    sig = "F-EARLY" if killed else None
+                    if any(len(ln.encode()) + 1 > STREAM_LIMIT for ln in lines[:len(replies) + 1]):
+                        sig = "F-LONGLINE"
+                    self.violate("C18", "missing_reply", f"client {c.label}: {len(replies)} replies for {n_lines} lines; unanswered: {lines[len(replies)][:80]!r}",
+                                 signature=sig)
             # the client must have received exactly what the server wrote
             if not c.ct._stalled and bytes(c.recv) != b"".join(writes) and not c.lost_exc:
                 self.violate("C18", "stream_mismatch", f"client {c.label}: received bytes differ from what the server wrote")
